@@ -219,6 +219,9 @@ def zoo_check(n, tier, seed):
         if rcode == 2:
             return 2
     import vfextra
+    if not R.violations and n in (1, 4, 10):
+        if vfextra.cfgperm_check(R, n, tier, seed) == 2:
+            return 2
     if not R.violations and n == 10:
         if vfextra.c10_extra(R, tier, seed) == 2:
             return 2
